@@ -7,11 +7,13 @@ Emit == (result # "run" /\ hist[Len(hist)].op \in {"exit", "topfail"}) => PrintT
 \* run ahead of the goroutines); here the program choice is one action.
 GenNext == \/ TopFail
            \/ \E p \in {q \in Progs : disp >= 0} : Top(p)
+           \/ Ensure
            \/ Spawn
            \/ \E t \in Tx : Begin(t)
            \/ \E t \in Tx : Step(t)
            \/ \E t \in Tx : EndExec(t)
            \/ \E t \in Tx : Commit(t)
            \/ Exit
+           \/ Cancel
 GenSpec == Init /\ [][GenNext]_vars
 ====
